@@ -67,6 +67,7 @@ def check_point(x, box, what, t):
 
 class TotalityOracle(Oracle):
     name = "C01"
+    wants_none = True
 
     def __init__(self, T, mode):
         self.T = T
